@@ -45,8 +45,18 @@ def wl_cms(ctx, rng, case):
     qtype = rng.choice(["min", "min", "mean", "mean-min"])
     if qtype == "mean-min":
         width = max(width, 2)
-    s = {"min": P.CountMinSketch, "mean": P.CountMeanSketch, "mean-min": P.CountMeanMinSketch}[qtype](width=width, depth=depth, **bl.kw_hash(hf))
+    cls = {"min": P.CountMinSketch, "mean": P.CountMeanSketch, "mean-min": P.CountMeanMinSketch}[qtype]
+    extra = {}
+    if qtype == "min" and rng.random() < 0.4:
+        # the subclasses that keep a table on top of the sketch go through their own add / remove entry points
+        cls, extra = rng.choice([(P.StreamThreshold, {"threshold": rng.choice([1, 5, 2**31 - 1])}), (P.StreamThreshold, {"threshold": 3}),
+                                 (P.HeavyHitters, {"num_hitters": rng.randint(1, 3)})])
+    s = cls(width=width, depth=depth, **extra, **bl.kw_hash(hf))
+    can_remove = cls is not P.HeavyHitters  # HeavyHitters refuses removals (NotSupportedError)
+    can_join = not extra  # HeavyHitters and StreamThreshold refuse join (NotSupportedError)
     case.desc["query_type"] = qtype
+    case.desc["cls"] = cls.__name__
+    ctx.observe("count_min_classes", cls.__name__)
     model = [0] * (width * depth)
     total = 0
     sat_hi = sat_lo = 0
@@ -55,7 +65,7 @@ def wl_cms(ctx, rng, case):
         idx = [(h % width) + i * width for i, h in enumerate(s.hashes(k))]
         before = bytes(s)
         r = rng.random()
-        if r < 0.55:
+        if r < 0.55 or (r < 0.9 and not can_remove) or (r >= 0.9 and not can_join):
             n = amount(rng, I32MAX)
             case.op("add", k, n)
             ret, exc = ctx.call(s.add, k, n)
@@ -71,9 +81,9 @@ def wl_cms(ctx, rng, case):
             total = clamp(total - n, I64MIN, I64MAX)
         else:
             # join with a second near-limit sketch
-            t = type(s)(width=width, depth=depth, **bl.kw_hash(hf))
+            t = type(s)(width=width, depth=depth, **extra, **bl.kw_hash(hf))
             n2 = amount(rng, I32MAX)
-            neg = rng.random() < 0.4
+            neg = rng.random() < 0.4 and can_remove
             k2 = rng.choice(keys)
             (t.remove if neg else t.add)(k2, n2)
             tcells = cms_cells(t)
@@ -106,7 +116,7 @@ def wl_cms(ctx, rng, case):
                           returned=ret, check=s.check(k))
                 ctx.count("non_min_return_checks")
         data = bytes(s)
-        ctx.check(bytes(type(s).frombytes(data, **bl.kw_hash(hf))) == data, f"export -> load -> export is not the identity {where}")
+        ctx.check(bytes(type(s).frombytes(data, **extra, **bl.kw_hash(hf))) == data, f"export -> load -> export is not the identity {where}")
         sat_hi += any(c == I32MAX for c in model)
         sat_lo += any(c == I32MIN for c in model)
         ctx.count("cell_comparisons", len(model))
